@@ -328,7 +328,10 @@ func C12(r *core.Run) {
 	}
 	if r.OnlyCase >= 0 {
 		// replay: one case of the concatenated list hist, forced, stress
-		cat := append(append(append(append(append(append([]c12Case{}, hist...), forced...), stress...), batch...), noread...), bodies...), stall...)
+		var cat []c12Case
+		for _, l := range [][]c12Case{hist, forced, stress, batch, noread, bodies, stall} {
+			cat = append(cat, l...)
+		}
 		if r.OnlyCase < len(cat) {
 			launch(cat[r.OnlyCase:r.OnlyCase+1], 1, 1)
 		}
